@@ -38,6 +38,8 @@ def fltRt (kind hex : String) : String :=
     | "half" => isNaNBits 5 10 b
     | "fp128" => isNaNBits 15 112 (swapWords b)
     | "x86_fp80" => isNaN80 (b / 2 ^ 64) (b % 2 ^ 64)
+    -- (a double-double is a NaN when one of its two doubles is; what is printed for it is the NaN of the float dependency with the sign of the high double)
+    | "ppc_fp128" => isNaNBits 11 52 (b / 2 ^ 64) || isNaNBits 11 52 (b % 2 ^ 64)
     | _ => false
   if nan && fltCanon kind hex != (if kind == "double" || kind == "float" then hexUpper b else hex.toUpper) then "FAIL:nan-payload-lost" else "ok"
 
